@@ -1,4 +1,4 @@
-"""C11 (thin) — constants of is_power_of_two / is_one_or_three_times_power_of_two / next.  Rule R11.1/R11.2."""
+"""C11 — is_power_of_two and next() derived for every significand (R11.1, R11.2); error-free accounting of the compound operations (R11.3-R11.5)."""
 
 from __future__ import annotations
 
@@ -609,13 +609,15 @@ def accepted_significands(bits, P, Q):
 def run(repo, tier):
     r = Report("C11", tier, repo, level="other", design_ref="§3/C11")
     r.explanation = (
-        "Thin structural clause of C11: the constants on which is_power_of_two, is_one_or_three_times_power_of_two and next() "
-        "rest are constant-evaluated from the source (Python precedence included) at every definition site and compared with each "
-        "other, with the documented formulas and with the IEEE precisions. The ULP bounds of 3Sum/4Sum/dot2/FMA are numeric and "
-        "are NOT decided."
+        "C11, the clauses that are decided: is_power_of_two / is_one_or_three_times_power_of_two - the constants are constant-evaluated "
+        "at every definition site (Python precedence included) and the set of significands the test accepts is derived in closed form "
+        "per format (exactly {1}, resp. {1, 3/2}); next() - for the multiplier that is there, x / c and x * c round to the neighbouring "
+        "float for every significand (end-point inequalities in exact rationals); the error-free accounting of 3Sum / 4Sum / dot2 / "
+        "mul_add and of the emulated FMA variants on exact polynomials with the 2Sum / Dekker contracts. The ULP bounds of 4Sum, "
+        "dot2, mul_add and FMA are numeric and are NOT decided."
     )
     r.trusted_base = ["Python ast", "IEEE-754 binary16/32/64 precisions"]
-    r.assumptions = ["formulas P = 2^(p-1)+1, Q = 2^(p-1) (Graillat, Muller hal-04624238) are the correct ones"]
+    r.assumptions = ["x normal, no overflow or underflow in P*x, Q*x, x/c, x*c (the operations' stated domains); each operation is one correctly rounded IEEE-754 operation"]
     r.rule("R11.1", "P/Q constants equal 2^(p-1)+1 / 2^(p-1) (resp. 2^(p-2)+1 / 2^(p-2)) at every definition site and in the docstrings; derived per site and format: the set of significands for which fl(P*x - Q*x) == x holds is exactly {1} (resp. {1, 3/2})", floor=21)
     r.rule("R11.2", "next(): for every normal x with a normal neighbour, x / c rounds to the next float away from zero and x * c to the next float towards zero - derived per format for the multiplier that is there, scale free over all significands (end-point conditions in exact rationals); direction of the step", floor=4)
     r.rule("R11.4", "3Sum is an exact decomposition and the rounded compound operations account for every error term: under exact-arithmetic semantics with 2Sum / Dekker contracts, s + e + t == x + y + z and (arm taken when the residual vanishes) + residual == exact result", floor=5)
